@@ -30,6 +30,25 @@ theorem removeReplica_replicas (c : Ctl) (a : String) (e : CkEnv) :
     have := hh' r hr
     simpa using this
 
+theorem removeReplica_rf (c : Ctl) (a : String) (e : CkEnv) : (c.removeReplica a e).rf = c.rf := by
+  unfold removeReplica
+  by_cases hh : c.hasReplica a = true
+  · simp only [hh, Bool.not_true, Bool.false_eq_true, if_false]
+    have s := updateCheckpoint_same
+      (((({ (if c.replicas.length = 1 ∧ c.frontUp = true then
+          { c with signalled := false, maxRev := "", frontUp := false } else c) with
+        registered := (if c.replicas.length = 1 ∧ c.frontUp = true then
+          { c with signalled := false, maxRev := "", frontUp := false } else c).registered.filter fun r => full r.addr ≠ a,
+        replicas := (if c.replicas.length = 1 ∧ c.frontUp = true then
+          { c with signalled := false, maxRev := "", frontUp := false } else c).replicas.filter fun r => r.1 ≠ a } : Ctl).removeBackend a).updateVolStatus)) e
+    simp only at s
+    rw [s.1]
+    show (Ctl.removeBackend _ a).rf = _
+    unfold removeBackend
+    split <;> (simp only [rebuild, call]; split <;> rfl)
+  · have hh' : c.hasReplica a = false := by simpa using hh
+    simp only [hh', Bool.not_false, if_true]
+
 theorem filter_le_one_unique {α : Type} (l : List α) (p : α → Bool) (h : (l.filter p).length ≤ 1)
     (x y : α) (hx : x ∈ l) (hy : y ∈ l) (px : p x = true) (py : p y = true) : x = y := by
   have mx : x ∈ l.filter p := List.mem_filter.mpr ⟨hx, px⟩
@@ -107,70 +126,36 @@ theorem ccore_attach (c : Ctl) (h : CCore c) (addr : String) (id : Nat) (hid : c
     have := hlt b' hb'
     omega
 
-theorem cinv_addAfterCheck (c : Ctl) (h : CInv c) (addr : String) (cok : Bool) (sf : List String)
-    (nso swo : Bool) (ck : CkEnv) (hno : c.hasReplica addr = false)
-    (hwo : c.replicas.filter (fun r => r.2 = .wo) = []) :
-    CInv (c.addAfterCheck addr cok sf nso swo ck).1 := by
-  unfold addAfterCheck
-  simp only
-  by_cases h1 : c.rf = c.replicas.length
-  · rw [if_pos h1]; exact h
-  · rw [if_neg h1]
-    by_cases h2 : (!cok) = true
-    · rw [if_pos h2]; exact h
-    · rw [if_neg h2]
-      have hc := h.core
-      -- the state after reserving the id
-      have h3 : CInv ({ c with nextId := c.nextId + 1 } : Ctl) := by
-        refine ⟨⟨hc.rfPos, hc.nodup, hc.agree, hc.fanout, hc.oneWO, hc.lenRf, ?_, hc.idsLive, hc.idsNodup⟩, h.status, h.ckpt⟩
-        constructor
-        · intro b hb; have := hc.idsLt.1 b hb; show b.id < c.nextId + 1; omega
-        · intro i hi; have := hc.idsLt.2 i hi; show i < c.nextId + 1; omega
-      have h4 := cinv_calls' _ h3 (c.backends.filter fun b => b.mode ≠ .err) (·.id) "Snapshot"
-      have same := calls_same ({ c with nextId := c.nextId + 1 } : Ctl) (c.backends.filter fun b => b.mode ≠ .err) (·.id) "Snapshot"
-      simp only at same
-      generalize (List.foldl (fun c b => c.call b.id "Snapshot") ({ c with nextId := c.nextId + 1 } : Ctl)
-        (c.backends.filter fun b => b.mode ≠ .err)) = c2 at h4 same
-      have e_next : c2.nextId = c.nextId + 1 := same.2.2.2.2.2.2.2.2.2.1
-      have e_back : c2.backends = c.backends := same.2.2.1
-      have e_closed : c2.closed = c.closed := same.2.2.2.2.2.2.2.2.2.2.1
-      have e_reps : c2.replicas = c.replicas := same.2.1
-      have e_rf : c2.rf = c.rf := same.1
-      have hlt : ∀ b ∈ c2.backends, b.id < c.nextId := by rw [e_back]; exact hc.idsLt.1
-      have hcl : ∀ i ∈ c2.closed, i < c.nextId := by rw [e_closed]; exact hc.idsLt.2
-      split
-      · exact cinv_closeNew c2 h4 c.nextId e_next hlt hcl
-      · split
-        · exact cinv_closeNew _ (cinv_call c2 h4 _ _) c.nextId e_next hlt hcl
-        · split
-          · exact cinv_call _ (cinv_call c2 h4 _ _) _ _
-          · have h5 : CInv ((c2.call c.nextId "Snapshot").call c.nextId "SetReplicaMode") :=
-              cinv_call _ (cinv_call c2 h4 _ _) _ _
-            have h6 := ccore_attach _ h5.core addr c.nextId e_next hlt hcl
-              (by show (c2.replicas.any fun r => r.1 = addr) = false; rw [e_reps]; exact hno)
-              (by show c2.replicas.filter _ = []; rw [e_reps]; exact hwo)
-              (by show c2.replicas.length < c2.rf; rw [e_reps, e_rf]; have := hc.lenRf; omega)
-            exact cinv_updateCheckpoint _ (ccore_updateVolStatus _ h6) (status_updateVolStatus _) ck
+theorem cinv_reserveId (c : Ctl) (h : CInv c) : CInv c.reserveId := by
+  have hc := h.core
+  refine ⟨⟨hc.rfPos, hc.nodup, hc.agree, hc.fanout, hc.oneWO, hc.lenRf, ?_, hc.idsLive, hc.idsNodup⟩, h.status, h.ckpt⟩
+  constructor
+  · intro b hb; have := hc.idsLt.1 b hb; show b.id < c.nextId + 1; omega
+  · intro i hi; have := hc.idsLt.2 i hi; show i < c.nextId + 1; omega
 
-theorem cinv_stepAdd (c : Ctl) (h : CInv c) (addr : String) (tk : Option Bool) (cok : Bool) (sf : List String)
-    (nso swo : Bool) (ck : CkEnv) : CInv (c.stepAdd addr tk cok sf nso swo ck).1 := by
-  unfold stepAdd
+/-- what `canAdd` establishes when it lets the newcomer through -/
+theorem canAdd_some (c : Ctl) (h : CInv c) (addr : String) (tk : Option Bool) (c1 : Ctl)
+    (e : c.canAdd addr tk = some c1) :
+    CInv c1 ∧ c1.hasReplica addr = false ∧ c1.replicas.filter (fun r => r.2 = .wo) = [] := by
+  unfold canAdd at e
   by_cases h1 : c.hasReplica addr = true
-  · rw [if_pos h1]; exact h
-  · rw [if_neg h1]
+  · rw [if_pos h1] at e; cases e
+  · rw [if_neg h1] at e
     have hno : c.hasReplica addr = false := by simpa using h1
-    split
+    split at e
     · rename_i hnone
-      apply cinv_addAfterCheck c h addr cok sf nso swo ck hno
+      cases e
+      refine ⟨h, hno, ?_⟩
       apply List.filter_eq_nil_iff.mpr
       intro r hr
       have := List.find?_eq_none.mp hnone r hr
       simpa using this
     · rename_i w hw
-      split
-      · have hr := cinv_removeReplica c h w.1 CkEnv.none
+      split at e
+      · cases e
+        have hr := cinv_removeReplica c h w.1 CkEnv.none
         have hreps := removeReplica_replicas c w.1 CkEnv.none
-        apply cinv_addAfterCheck _ hr addr cok sf nso swo ck
+        refine ⟨hr, ?_, ?_⟩
         · unfold hasReplica; rw [hreps, List.any_eq_false]
           intro r hr'
           unfold hasReplica at hno
@@ -186,8 +171,98 @@ theorem cinv_stepAdd (c : Ctl) (h : CInv c) (addr : String) (tk : Option Bool) (
           have := filter_le_one_unique c.replicas (fun r => decide (r.2 = CMode.wo)) h.core.oneWO r w hrm hwm hwo hww
           rw [this] at hra
           simp at hra
-      · exact h
+      · cases e
 
+theorem cinv_attachNew (c : Ctl) (h : CInv c) (addr : String) (sf : List String)
+    (nso swo : Bool) (ck : CkEnv) (hno : c.hasReplica addr = false)
+    (hwo : c.replicas.filter (fun r => r.2 = .wo) = []) (hrf : c.replicas.length < c.rf) :
+    CInv (attachNew c.reserveId addr c.nextId sf nso swo ck).1 := by
+  unfold attachNew
+  simp only
+  have hc := h.core
+  have h3 : CInv c.reserveId := cinv_reserveId c h
+  have h4 := cinv_calls' _ h3 (c.reserveId.backends.filter fun b => b.mode ≠ .err) (·.id) "Snapshot"
+  have same := calls_same c.reserveId (c.reserveId.backends.filter fun b => b.mode ≠ .err) (·.id) "Snapshot"
+  simp only at same
+  generalize (List.foldl (fun c b => c.call b.id "Snapshot") c.reserveId
+    (c.reserveId.backends.filter fun b => b.mode ≠ .err)) = c2 at h4 same
+  have e_next : c2.nextId = c.nextId + 1 := same.2.2.2.2.2.2.2.2.2.1
+  have e_back : c2.backends = c.backends := same.2.2.1
+  have e_closed : c2.closed = c.closed := same.2.2.2.2.2.2.2.2.2.2.1
+  have e_reps : c2.replicas = c.replicas := same.2.1
+  have e_rf : c2.rf = c.rf := same.1
+  have hlt : ∀ b ∈ c2.backends, b.id < c.nextId := by rw [e_back]; exact hc.idsLt.1
+  have hcl : ∀ i ∈ c2.closed, i < c.nextId := by rw [e_closed]; exact hc.idsLt.2
+  split
+  · exact cinv_closeNew c2 h4 c.nextId e_next hlt hcl
+  · split
+    · exact cinv_closeNew _ (cinv_call c2 h4 _ _) c.nextId e_next hlt hcl
+    · split
+      · exact cinv_call _ (cinv_call c2 h4 _ _) _ _
+      · have h5 : CInv ((c2.call c.nextId "Snapshot").call c.nextId "SetReplicaMode") :=
+          cinv_call _ (cinv_call c2 h4 _ _) _ _
+        have h6 := ccore_attach _ h5.core addr c.nextId e_next hlt hcl
+          (by show (c2.replicas.any fun r => r.1 = addr) = false; rw [e_reps]; exact hno)
+          (by show c2.replicas.filter _ = []; rw [e_reps]; exact hwo)
+          (by show c2.replicas.length < c2.rf; rw [e_reps, e_rf]; exact hrf)
+        exact cinv_updateCheckpoint _ (ccore_updateVolStatus _ h6) (status_updateVolStatus _) ck
+
+theorem cinv_stepAddPre (c : Ctl) (h : CInv c) (addr : String) (tk : Option Bool) :
+    CInv (c.stepAddPre addr tk).1 := by
+  unfold stepAddPre
+  split
+  · exact h
+  · rename_i c1 e
+    have := (canAdd_some c h addr tk c1 e).1
+    split <;> exact this
+
+/-- the second critical section of `AddReplica` preserves the invariant from ANY state satisfying it
+    — whatever was served while the call was inside `factory.Create` -/
+theorem cinv_stepAddPost (c : Ctl) (h : CInv c) (addr : String) (tk : Option Bool) (cok : Bool) (sf : List String)
+    (nso swo : Bool) (ck : CkEnv) : CInv (c.stepAddPost addr tk cok sf nso swo ck).1 := by
+  unfold stepAddPost
+  by_cases h2 : (!cok) = true
+  · rw [if_pos h2]; exact h
+  · rw [if_neg h2]
+    by_cases h1 : c.rf = c.replicas.length
+    · rw [if_pos h1]
+      exact cinv_closeNew _ (cinv_reserveId c h) c.nextId rfl h.core.idsLt.1 h.core.idsLt.2
+    · rw [if_neg h1]
+      split
+      · exact cinv_reserveId c h
+      · rename_i c1 e
+        obtain ⟨i1, hno, hwo⟩ := canAdd_some c h addr tk c1 e
+        apply cinv_attachNew c1 i1 addr sf nso swo ck hno hwo
+        -- the replication factor: `canAdd` only ever removes replicas
+        have hlen : c1.replicas.length ≤ c.replicas.length := by
+          unfold canAdd at e
+          split at e
+          · cases e
+          · split at e
+            · cases e; exact Nat.le_refl _
+            · split at e
+              · cases e
+                rw [removeReplica_replicas]
+                exact List.length_filter_le _ _
+              · cases e
+        have hrf1 : c1.rf = c.rf := by
+          unfold canAdd at e
+          split at e
+          · cases e
+          · split at e
+            · cases e; rfl
+            · split at e
+              · cases e; exact removeReplica_rf c _ _
+              · cases e
+        have := h.core.lenRf
+        omega
+
+theorem cinv_stepAdd (c : Ctl) (h : CInv c) (addr : String) (tk : Option Bool) (cok : Bool) (sf : List String)
+    (nso swo : Bool) (ck : CkEnv) : CInv (c.stepAdd addr tk cok sf nso swo ck).1 := by
+  unfold stepAdd
+  split
+  · exact cinv_stepAddPost _ (cinv_stepAddPre c h addr tk) addr tk cok sf nso swo ck
+  · exact cinv_stepAddPre c h addr tk
 
 theorem cinv_startFront (c : Ctl) (h : CInv c) : CInv c.startFront := by
   unfold startFront; split
@@ -288,6 +363,8 @@ theorem cinv_step (c : Ctl) (h : CInv c) (op : CtlOp) : CInv (c.step op).1 := by
   | register r so al el => exact cinv_stepRegister _ h0 r so al el
   | start a cok sz swo cl srw rev ck => exact cinv_stepStart _ h0 a cok sz swo cl srw rev ck
   | add a tk cok sf nso swo ck => exact cinv_stepAdd _ h0 a tk cok sf nso swo ck
+  | addPre a tk => exact cinv_stepAddPre _ h0 a tk
+  | addPost a tk cok sf nso swo ck => exact cinv_stepAddPost _ h0 a tk cok sf nso swo ck
   | remove a => exact cinv_removeReplica _ h0 a CkEnv.none
   | setMode a m =>
     simp only
